@@ -1,7 +1,7 @@
 (* JsonOf.v: serde_json::to_value on the data-model items a value serialises as (hand model of
    serde_json's value serializer), and the restrictions under which C17 compares the dynamic
    codec with the static one. *)
-From PV Require Import Base MachineInt Utf8 DataModel Schema SchemaDecl SchemaConv Conform Dyn.
+From PV Require Import Base MachineInt Utf8 DataModel WireFormat Schema SchemaDecl SchemaConv Conform Dyn.
 Open Scope N_scope.
 
 Section JsonOf.
@@ -89,10 +89,11 @@ Fixpoint in_scope (s : schema) : bool :=
 Fixpoint small_seqs (v : nvalue) : bool :=
   match v with
   | NSome x | NNewtypeStruct _ x | NVariant _ _ _ x => small_seqs x
-  | NSeq xs => (N.of_nat (length xs) <=? 65536) && forallb small_seqs xs
+  | NSeq xs => ((N.of_nat (length xs) <=? 65536) || forallb (fun x => negb (N.of_nat (length (spec_enc (erase x))) =? 0)) xs)
+               && forallb small_seqs xs
   | NTuple xs | NTupleStruct _ xs => forallb small_seqs xs
   | NStruct _ fs => forallb (fun f => small_seqs (snd f)) fs
-  | NMap kvs => (N.of_nat (length kvs) <=? 65536) && forallb (fun kv => small_seqs (fst kv) && small_seqs (snd kv)) kvs
+  | NMap kvs => forallb (fun kv => small_seqs (fst kv) && small_seqs (snd kv)) kvs
   | _ => true
   end.
 
